@@ -26,8 +26,9 @@ ROOT = os.path.dirname(os.path.dirname(os.path.abspath(__file__)))
 REPO = os.environ.get("TLX_REPO", "/repo")
 LEAN = os.path.join(ROOT, "lean")
 DRIVER = os.path.join(LEAN, ".lake", "build", "bin", "tlxdriver")
-EVID = os.path.join(ROOT, "evidence")
-REPLAYS = os.path.join(EVID, "replays")
+# runs against a scratch tree (seeded changes, drafts of repairs) must not overwrite the evidence of the real tree
+EVID = os.path.join(ROOT, "evidence") if os.path.realpath(REPO) == "/repo" else os.path.join(ROOT, "evidence", "scratch")
+REPLAYS = os.path.join(ROOT, "evidence", "replays")
 ALLOWED_AXIOMS = {"propext", "Classical.choice", "Quot.sound"}
 FORBIDDEN = re.compile(r"\bsorry\b|\badmit\b|^axiom\s|native_decide|bv_decide|implemented_by|\bunsafe\s|maxHeartbeats 0")
 
